@@ -41,7 +41,7 @@ def main(tier, seed):
     return history.check(
         "C14", tier, seed, run=run, machine="Profiles", mc_cfg="Profiles_%s.cfg" % tier, gen_cfg="Profiles_gen_%s.cfg" % tier,
         trace_module="ProfilesTrace", adapter="adapters.profiles", sig=sig, corrupt=corrupt,
-        tour_cap=4000 if q else 60000, n_walks=150 if q else 3000, walk_len=12 if q else 30, nontrivial=nontrivial,
+        tour_cap=9000 if q else 60000, n_walks=150 if q else 3000, walk_len=12 if q else 30, nontrivial=nontrivial,
         variants=[{}, {"detour": True}],
         rule="transition tour over every explored (registry contents, macro cache) state x enabled registry operation "
              "(addProfile, addProfiles of pairs, re-adding the built-ins, removeProfile incl. unknown names, removeProfile(all), "
